@@ -10,6 +10,7 @@ var commands = map[string]func([]string){
 	"c01rand": cmdC01Rand,
 	"c02":     cmdC02,
 	"serve":   cmdServe,
+	"life":    cmdLife,
 }
 
 func main() {
